@@ -29,6 +29,8 @@
     overflow (undefined behaviour) or, for qsort, running out of fuel.
 -/
 import IgrisModel.C11.Lemmas
+import IgrisModel.C11.More
+import IgrisModel.C11.Bytes
 namespace Igris.C11
 open Igris.Proto (Byte)
 
@@ -230,5 +232,452 @@ theorem bsearch_after_qsort {α : Type} (cmp : α → α → Int) (hc : Consiste
 -- a layout satisfying the hypothesis, with duplicates and an absent key
 example : bsearch (fun (k : Int) (e : Int) => k - e) 4 [1, 3, 3, 5, 7] = some none := by decide
 example : bsearch (fun (k : Int) (e : Int) => k - e) 3 [1, 3, 3, 5, 7] = some (some 2) := by decide
+
+/-! ## Extension: errno, strtoq/strtouq, atoll
+
+`strtolE` … are the same transcriptions with one more result component: what
+the call stores in `errno` (`0` = nothing is stored, the caller's value stays;
+`ERANGE = 34`, `EINVAL = 22`).  ISO 7.22.1.4 ¶8: ERANGE is stored iff the
+correct value is outside the range of the result type (`Spec.signedErr`,
+`Spec.unsignedErr`); ISO 7.5 ¶3: a library function never stores 0.
+strtol.c / strtoimax.c stored nothing before eaa5889. -/
+
+/-- the errno-carrying functions compute the value and end offset of the
+original ones, on EVERY memory (not only on well-formed strings) -/
+theorem strtoE_same_value_end (w : Nat) (mem : List Byte) (base : Nat) :
+    (strtolE w mem base).map (fun r => (r.1, r.2.1)) = strtol w mem base ∧
+    (strtoimaxE w mem base).map (fun r => (r.1, r.2.1)) = strtoimax w mem base ∧
+    (strtoulE w mem base).map (fun r => (r.1, r.2.1)) = strtoul w mem base ∧
+    (strtoumaxE w mem base).map (fun r => (r.1, r.2.1)) = strtoumax w mem base ∧
+    (strtoullE w mem base).map (fun r => (r.1, r.2.1)) = strtoull w mem base :=
+  ⟨strtoSUe_proj w readsL mem base, strtoSUe_proj w readsL mem base, strtoUUe_proj w readsUL mem base,
+   strtoUUe_proj w readsUL mem base, strtoULLe_proj w readsLL mem base⟩
+
+/-- strtol: value, end offset AND errno are ISO's, for every text and base -/
+theorem strtol_value_end_errno (w : Nat) (hw : 0 < w) (t : List Byte) (base : Nat) (hb : ValidBase base) :
+    strtolE w (t ++ [0]) base =
+      some ((Spec.signedResult w (Spec.parse t base)).1, (Spec.signedResult w (Spec.parse t base)).2,
+        Spec.signedErr w (Spec.parse t base)) :=
+  strtoSUe_spec w hw readsL t base hb
+
+theorem strtoimax_value_end_errno (w : Nat) (hw : 0 < w) (t : List Byte) (base : Nat) (hb : ValidBase base) :
+    strtoimaxE w (t ++ [0]) base =
+      some ((Spec.signedResult w (Spec.parse t base)).1, (Spec.signedResult w (Spec.parse t base)).2,
+        Spec.signedErr w (Spec.parse t base)) :=
+  strtoSUe_spec w hw readsL t base hb
+
+/-- strtoll stores ERANGE inside the digit loop, at the digit that would pass
+the limit: the theorem says that this happens exactly for the out-of-range texts -/
+theorem strtoll_value_end_errno (w : Nat) (hw : 0 < w) (t : List Byte) (base : Nat) (hb : ValidBase base) :
+    strtollE w (t ++ [0]) base =
+      some ((Spec.signedResult w (Spec.parse t base)).1, (Spec.signedResult w (Spec.parse t base)).2,
+        Spec.signedErr w (Spec.parse t base)) :=
+  strtoLLe_spec w hw readsLL t base hb
+
+theorem strtoull_value_end_errno (w : Nat) (t : List Byte) (base : Nat) (hb : ValidBase base) :
+    strtoullE w (t ++ [0]) base =
+      some ((Spec.unsignedResult w (Spec.parse t base)).1, (Spec.unsignedResult w (Spec.parse t base)).2,
+        Spec.unsignedErr w (Spec.parse t base)) :=
+  strtoULLe_spec w readsLL t base hb
+
+/-- strtoul / strtoumax: ISO's value, end offset and ERANGE; in addition the
+code stores EINVAL when no conversion is performed (`Spec.unsignedErrEinval`;
+POSIX allows it, ISO C does not ask for it — the code is modelled as it is) -/
+theorem strtoul_value_end_errno (w : Nat) (t : List Byte) (base : Nat) (hb : ValidBase base) :
+    strtoulE w (t ++ [0]) base =
+      some ((Spec.unsignedResult w (Spec.parse t base)).1, (Spec.unsignedResult w (Spec.parse t base)).2,
+        Spec.unsignedErrEinval w (Spec.parse t base)) :=
+  strtoUUe_spec w readsUL t base hb
+
+theorem strtoumax_value_end_errno (w : Nat) (t : List Byte) (base : Nat) (hb : ValidBase base) :
+    strtoumaxE w (t ++ [0]) base =
+      some ((Spec.unsignedResult w (Spec.parse t base)).1, (Spec.unsignedResult w (Spec.parse t base)).2,
+        Spec.unsignedErrEinval w (Spec.parse t base)) :=
+  strtoUUe_spec w readsUL t base hb
+
+/-- … and whenever a conversion IS performed, what strtoul/strtoumax store is exactly ISO's -/
+theorem strtoul_errno_iso_when_converted (w : Nat) (s : Spec.Subject) :
+    Spec.unsignedErrEinval w (some s) = Spec.unsignedErr w (some s) := rfl
+
+-- errno of the specification at w = 8: "128" -> ERANGE, "-128" -> nothing, "-129" -> ERANGE, "" -> nothing;
+-- unsigned: "256" -> ERANGE, "-255" -> nothing, "-256" -> ERANGE (the magnitude does not fit), "" -> EINVAL (code) / nothing (ISO)
+example : Spec.signedErr 8 (some ⟨false, 128, 3⟩) = 34 ∧ Spec.signedErr 8 (some ⟨true, 128, 4⟩) = 0
+    ∧ Spec.signedErr 8 (some ⟨true, 129, 4⟩) = 34 ∧ Spec.signedErr 8 none = 0 := by decide
+example : Spec.unsignedErr 8 (some ⟨false, 256, 3⟩) = 34 ∧ Spec.unsignedErr 8 (some ⟨true, 255, 4⟩) = 0
+    ∧ Spec.unsignedErr 8 (some ⟨true, 256, 4⟩) = 34 ∧ Spec.unsignedErrEinval 8 none = 22 ∧ Spec.unsignedErr 8 none = 0 := by decide
+-- the model at w = 8: "128" base 10 clamps and stores ERANGE; base 36: "3k" = 128 overflows on the LAST digit, "3j" = 127 does not;
+-- "-3k" = -128 is representable (nothing stored), "-3l" is not
+example : strtolE 8 ([0x31, 0x32, 0x38] ++ [0]) 10 = some (127, 3, 34) := by decide
+example : strtollE 8 ([0x33, 0x6b] ++ [0]) 36 = some (127, 2, 34) ∧ strtollE 8 ([0x33, 0x6a] ++ [0]) 36 = some (127, 2, 0) := by decide
+example : strtollE 8 ([0x2d, 0x33, 0x6b] ++ [0]) 36 = some (-128, 3, 0) ∧ strtollE 8 ([0x2d, 0x33, 0x6c] ++ [0]) 36 = some (-128, 3, 34) := by decide
+example : strtoulE 8 ([0x2d] ++ [0]) 10 = some (0, 0, 22) ∧ strtoullE 8 ([0x2d] ++ [0]) 10 = some (0, 0, 0) := by decide
+
+/-- strtoq = `(int64_t) strtoll`: for every `long long` of at most 64 bits the
+conversion changes nothing, the result is ISO's -/
+theorem strtoq_value_end_errno (w : Nat) (hw : 0 < w) (h64 : w ≤ 64) (t : List Byte) (base : Nat) (hb : ValidBase base) :
+    strtoqE w (t ++ [0]) base =
+      some ((Spec.signedResult w (Spec.parse t base)).1, (Spec.signedResult w (Spec.parse t base)).2,
+        Spec.signedErr w (Spec.parse t base)) := by
+  unfold strtoqE
+  rw [strtoll_value_end_errno w hw t base hb]
+  simp only [Option.map_some]
+  obtain ⟨h1, h2⟩ := signedResult_range w hw (Spec.parse t base)
+  have h3 := pow_le_63 w hw h64
+  rw [asSigned_wrap 64 (by omega) _ ⟨by omega, by omega⟩]
+
+theorem strtouq_value_end_errno (w : Nat) (h64 : w ≤ 64) (t : List Byte) (base : Nat) (hb : ValidBase base) :
+    strtouqE w (t ++ [0]) base =
+      some ((Spec.unsignedResult w (Spec.parse t base)).1, (Spec.unsignedResult w (Spec.parse t base)).2,
+        Spec.unsignedErr w (Spec.parse t base)) := by
+  unfold strtouqE
+  rw [strtoull_value_end_errno w t base hb]
+  simp only [Option.map_some]
+  have h1 := unsignedResult_lt w (Spec.parse t base)
+  have h2 : (2 : Nat) ^ w ≤ 2 ^ 64 := Nat.pow_le_pow_right (by omega) h64
+  rw [Nat.mod_eq_of_lt (by omega)]
+
+/-- atoll = `strtoll(nptr, 0, 10)` (compat/libc/include/stdlib.h): unlike
+atol/atoi it is defined for EVERY text — the decimal value clamped to the range -/
+theorem atoll_value (w : Nat) (hw : 0 < w) (t : List Byte) :
+    atoll w (t ++ [0]) = some (Spec.signedResult w (Spec.parse t 10)).1 := by
+  unfold atoll
+  rw [strtoll_value_end w hw t 10 (Or.inr ⟨by omega, by omega⟩)]
+  rfl
+
+/-! ## Extension: upper_bound / lower_bound (bsearch.c, after 4b0cc1f / 4849c5e)
+
+stdlib.h: lower_bound "Find the smallest element, greater or equals to
+specified", upper_bound "… strictly greater than specified".  Result = element
+index, `nmemb` = the one-past-the-end pointer.  `= some r` says: no access
+outside the array (the comparator is only called on elements `a[i]`, `i < nmemb`,
+as `cmp key element`), and the loop terminates. -/
+
+/-- upper_bound on an array laid out as ISO 7.22.5.1 ¶2 requires for this key:
+every element before the result is not greater than the key, every element from
+the result on is greater -/
+theorem upper_bound_spec {κ α : Type} (cmp : κ → α → Int) (key : κ) (a : List α) (hp : PartitionedBy cmp key a) :
+    ∃ r, upperBound cmp key a = some r ∧ r ≤ a.length ∧
+      (∀ i (h : i < a.length), i < r → 0 ≤ cmp key a[i]) ∧ (∀ i (h : i < a.length), r ≤ i → cmp key a[i] < 0) :=
+  upperBound_spec cmp key a hp
+
+/-- lower_bound: every element before the result is less than the key, every
+element from the result on is not less -/
+theorem lower_bound_spec {κ α : Type} (cmp : κ → α → Int) (key : κ) (a : List α) (hp : PartitionedBy cmp key a) :
+    ∃ r, lowerBound cmp key a = some r ∧ r ≤ a.length ∧
+      (∀ i (h : i < a.length), i < r → 0 < cmp key a[i]) ∧ (∀ i (h : i < a.length), r ≤ i → cmp key a[i] ≤ 0) :=
+  lowerBound_spec cmp key a hp
+
+/-- the positions are their specification: the FIRST element greater than the
+key / the FIRST element not less than the key (`nmemb` when there is none) -/
+theorem upper_bound_is_first_greater {κ α : Type} (cmp : κ → α → Int) (key : κ) (a : List α) (hp : PartitionedBy cmp key a) :
+    upperBound cmp key a = some (Spec.firstIdx (fun x => decide (cmp key x < 0)) a) := by
+  obtain ⟨r, hr, hle, h1, h2⟩ := upperBound_spec cmp key a hp
+  rw [hr, firstIdx_eq _ a r hle]
+  · intro i hi hlt; have := h1 i hi hlt; simp only [decide_eq_false_iff_not]; omega
+  · intro i hi hge; simpa using h2 i hi hge
+
+theorem lower_bound_is_first_not_less {κ α : Type} (cmp : κ → α → Int) (key : κ) (a : List α) (hp : PartitionedBy cmp key a) :
+    lowerBound cmp key a = some (Spec.firstIdx (fun x => decide (cmp key x ≤ 0)) a) := by
+  obtain ⟨r, hr, hle, h1, h2⟩ := lowerBound_spec cmp key a hp
+  rw [hr, firstIdx_eq _ a r hle]
+  · intro i hi hlt; have := h1 i hi hlt; simp only [decide_eq_false_iff_not]; omega
+  · intro i hi hge; simpa using h2 i hi hge
+
+/-- the two bounds bracket exactly the elements comparing equal, and bsearch
+answers from inside the bracket: found iff `lower < upper` -/
+theorem bounds_bracket_equal_range {κ α : Type} (cmp : κ → α → Int) (key : κ) (a : List α) (hp : PartitionedBy cmp key a) :
+    ∃ lo hi r, lowerBound cmp key a = some lo ∧ upperBound cmp key a = some hi ∧ bsearch cmp key a = some r ∧
+      lo ≤ hi ∧ hi ≤ a.length ∧
+      (∀ i (h : i < a.length), (lo ≤ i ∧ i < hi) ↔ cmp key a[i] = 0) ∧
+      (r = none ↔ lo = hi) ∧ (∀ i, r = some i → lo ≤ i ∧ i < hi) := by
+  obtain ⟨lo, hlo, hlon, l1, l2⟩ := lowerBound_spec cmp key a hp
+  obtain ⟨hi, hhi, hhin, u1, u2⟩ := upperBound_spec cmp key a hp
+  obtain ⟨r, hr, r1, r2⟩ := bsearch_spec cmp key a hp
+  have hlohi : lo ≤ hi := by
+    apply Classical.byContradiction
+    intro hn
+    have hlt : hi < a.length := by omega
+    have := l1 hi hlt (by omega)
+    have := u2 hi hlt (Nat.le_refl _)
+    omega
+  have hiff : ∀ i (h : i < a.length), (lo ≤ i ∧ i < hi) ↔ cmp key a[i] = 0 := by
+    intro i h
+    constructor
+    · rintro ⟨h1, h2⟩
+      have := l2 i h h1
+      have := u1 i h h2
+      omega
+    · intro h0
+      constructor
+      · apply Classical.byContradiction; intro hn; have := l1 i h (by omega); omega
+      · apply Classical.byContradiction; intro hn; have := u2 i h (by omega); omega
+  refine ⟨lo, hi, r, hlo, hhi, hr, hlohi, hhin, hiff, ?_, ?_⟩
+  · constructor
+    · intro hnone
+      apply Classical.byContradiction
+      intro hne
+      have hlt : lo < a.length := by omega
+      exact r2 hnone lo hlt ((hiff lo hlt).1 ⟨Nat.le_refl _, by omega⟩)
+    · intro heq
+      cases r with
+      | none => rfl
+      | some i =>
+        obtain ⟨hi', h0⟩ := r1 i rfl
+        have := (hiff i hi').2 h0
+        omega
+  · intro i hri
+    obtain ⟨hi', h0⟩ := r1 i hri
+    exact (hiff i hi').2 h0
+
+/-- the usual situation: one type, array sorted by a consistent comparator -/
+theorem bounds_sorted {α : Type} (cmp : α → α → Int) (hc : Consistent cmp) (key : α) (a : List α) (hs : Sorted cmp a) :
+    lowerBound cmp key a = some (Spec.firstIdx (fun x => decide (cmp key x ≤ 0)) a) ∧
+    upperBound cmp key a = some (Spec.firstIdx (fun x => decide (cmp key x < 0)) a) :=
+  ⟨lower_bound_is_first_not_less cmp key a (partitioned_of_sorted cmp hc a hs key),
+   upper_bound_is_first_greater cmp key a (partitioned_of_sorted cmp hc a hs key)⟩
+
+/-- nmemb = 0: `base` is returned and nothing is read -/
+theorem bounds_empty {κ α : Type} (cmp : κ → α → Int) (key : κ) :
+    upperBound cmp key ([] : List α) = some 0 ∧ lowerBound cmp key ([] : List α) = some 0 := ⟨rfl, rfl⟩
+
+/-- nmemb = 1: one comparison decides between `base` and `base + size` -/
+theorem bounds_singleton {κ α : Type} (cmp : κ → α → Int) (key : κ) (x : α) :
+    upperBound cmp key [x] = some (if cmp key x < 0 then 0 else 1) ∧
+    lowerBound cmp key [x] = some (if cmp key x ≤ 0 then 0 else 1) := by
+  constructor
+  · by_cases h : cmp key x < 0 <;> simp [upperBound, bndLoop, h]
+  · by_cases h : cmp key x ≤ 0 <;> simp [lowerBound, bndLoop, h]
+
+-- duplicates, key present / absent / below all / above all (the last two are the inputs of the repaired defects)
+example : lowerBound (fun (k e : Int) => k - e) 3 [1, 3, 3, 5, 7] = some 1 ∧ upperBound (fun (k e : Int) => k - e) 3 [1, 3, 3, 5, 7] = some 3 := by decide
+example : lowerBound (fun (k e : Int) => k - e) 4 [1, 3, 3, 5, 7] = some 3 ∧ upperBound (fun (k e : Int) => k - e) 4 [1, 3, 3, 5, 7] = some 3 := by decide
+example : upperBound (fun (k e : Int) => k - e) 0 [1, 3, 3, 5, 7] = some 0 ∧ lowerBound (fun (k e : Int) => k - e) 9 [1, 3, 3, 5, 7] = some 5 := by decide
+example : Spec.firstIdx (fun x : Int => decide (3 - x < 0)) [1, 3, 3, 5, 7] = 3 := by decide
+
+/-! ## Extension: qsort — recursion depth, element size -/
+
+/-- Termination with an explicit bound: one unit of fuel is consumed per NESTED
+call, so `fuel` bounds the recursion depth; every fuel above `nmemb` suffices.
+The recursion of qsort.c is therefore never deeper than `nmemb + 1` frames
+(each holding two VLAs of `size` bytes) — and the bound is reached: a pivot
+stream that always picks an extreme element peels one element per level. -/
+theorem qsort_recursion_depth {α : Type} (cmp : α → α → Int) (hirr : ∀ x, ¬ cmp x x < 0) (rs : List Int) (a : List α)
+    (fuel : Nat) (hf : a.length < fuel) :
+    ∃ out rs', qsortF cmp fuel rs a = some (out, rs') ∧ out.Perm a := by
+  obtain ⟨out, rs', h, hp, _⟩ := qsortF_spec cmp hirr fuel rs a hf
+  exact ⟨out, rs', h, hp⟩
+
+/-- An element index `i < nmemb` is the byte range `[i*size, i*size + size)`
+inside `[0, nmemb*size)`: the model gives every access as such an index (a
+fault otherwise), so for every element size the bytes touched by qsort,
+bsearch, upper_bound and lower_bound lie inside the array. -/
+theorem element_bytes_in_array (nmemb size i : Nat) (hi : i < nmemb) : i * size + size ≤ nmemb * size := by
+  have : (i + 1) * size ≤ nmemb * size := Nat.mul_le_mul_right size hi
+  rw [Nat.add_mul, Nat.one_mul] at this
+  exact this
+
+-- depth is really linear for an adversarial pivot stream: 8 distinct elements with fuel 4 run out of fuel, fuel 9 does not
+example : qsortF (fun a b : Int => a - b) 3 [0, 0, 0, 0, 0, 0, 0, 0] [0, 1, 2, 3, 4, 5, 6, 7] = none := by decide
+example : (qsortF (fun a b : Int => a - b) 9 [0, 0, 0, 0, 0, 0, 0, 0] [0, 1, 2, 3, 4, 5, 6, 7]).map (·.1) = some [0, 1, 2, 3, 4, 5, 6, 7] := by decide
+
+/-! ## Extension: qsort on BYTES, for every element size ≥ 1
+
+`qsortB` (ModelBytes.lean) is qsort.c on the `nmemb * size` bytes it is given:
+pointers are byte offsets, `swap` is three `memcpy`s through `char temp[size]`,
+the pivot is copied into `char key[size]`, a recursive call gets exactly the
+bytes of its sub-array; a `memcpy` or comparator argument that is not
+completely inside those bytes is a fault.  The comparator sees the `size`
+bytes of an element (so it may look at a key subfield only). -/
+
+/-- the byte-level function IS the element-level model on the `size`-byte
+chunks: same result, same faults, same consumption of the pivot stream — for
+every comparator (also inconsistent ones), every size ≥ 1, every array -/
+theorem qsort_bytes_refines (size : Nat) (hs : 0 < size) (cmp : List Byte → List Byte → Int) (rs : List Int)
+    (a : List (List Byte)) (hu : Uniform size a) :
+    qsortB cmp size rs a.flatten = (qsort cmp rs a).map fun r => (r.1.flatten, r.2) := by
+  unfold qsortB qsort
+  rw [flatten_div hs a hu]
+  exact qsortFB_refines cmp hs _ rs a hu
+
+/-- qsort on ANY array of `nmemb * size` bytes, `size ≥ 1`: it terminates, no
+byte outside `[base, base + nmemb*size)` is read or written (no fault, although
+exactly these bytes are mapped), the result has the same length and its
+elements are a permutation of the input's elements — for every pivot stream and
+every comparator that never says `x < x` -/
+theorem qsort_bytes_perm (size : Nat) (hs : 0 < size) (cmp : List Byte → List Byte → Int) (hirr : ∀ x, ¬ cmp x x < 0)
+    (rs : List Int) (nmemb : Nat) (mem : List Byte) (hlen : mem.length = nmemb * size) :
+    ∃ a out rs', Uniform size a ∧ a.length = nmemb ∧ a.flatten = mem ∧
+      qsortB cmp size rs mem = some (out.flatten, rs') ∧ Uniform size out ∧ out.Perm a ∧
+      out.flatten.length = mem.length := by
+  obtain ⟨a, hu, hn, hf⟩ := exists_chunks hs nmemb mem hlen
+  obtain ⟨out, rs', hq, hp⟩ := qsort_perm cmp hirr rs a
+  refine ⟨a, out, rs', hu, hn, hf, ?_, hu.perm hp, hp, ?_⟩
+  · rw [← hf, qsort_bytes_refines size hs cmp rs a hu, hq]; rfl
+  · rw [flatten_length out (hu.perm hp), hp.length_eq, hn, hlen]
+
+/-- … and ordered by the comparator, for every consistent comparator (total
+preorder on element contents, e.g. the order of a key subfield) -/
+theorem qsort_bytes_sorted (size : Nat) (hs : 0 < size) (cmp : List Byte → List Byte → Int) (hc : Consistent cmp)
+    (rs : List Int) (nmemb : Nat) (mem : List Byte) (hlen : mem.length = nmemb * size) :
+    ∃ a out rs', Uniform size a ∧ a.length = nmemb ∧ a.flatten = mem ∧
+      qsortB cmp size rs mem = some (out.flatten, rs') ∧ Uniform size out ∧ out.Perm a ∧ Sorted cmp out := by
+  obtain ⟨a, hu, hn, hf⟩ := exists_chunks hs nmemb mem hlen
+  obtain ⟨out, rs', hq, hp, hsrt⟩ := qsort_sorted cmp hc rs a
+  refine ⟨a, out, rs', hu, hn, hf, ?_, hu.perm hp, hp, hsrt⟩
+  rw [← hf, qsort_bytes_refines size hs cmp rs a hu, hq]; rfl
+
+/-- the primitives: a comparator argument / `memcpy` source at byte offset
+`i * size` is element `i`, and a fault exactly when `i ≥ nmemb`; `swap` on the
+bytes exchanges the two elements (also `swap(p, p)`) -/
+theorem qsort_bytes_primitives (size : Nat) (hs : 0 < size) (a : List (List Byte)) (hu : Uniform size a) (i j : Nat) :
+    elemAt size a.flatten (i * size) = a[i]? ∧
+    swapB size a.flatten (i * size) (j * size) = (swapAt a i j).map List.flatten :=
+  ⟨elemAt_flatten hs a hu i, swapB_flatten hs a hu i j⟩
+
+-- a comparator on a key subfield (the first byte) is consistent; a run on 3-byte elements
+example : Consistent (fun x y : List Byte => ((x.headD 0).toNat : Int) - (y.headD 0).toNat) :=
+  ⟨by intro a b; omega, by intro a b c; omega⟩
+example : (qsortB (fun x y : List Byte => ((x.headD 0).toNat : Int) - (y.headD 0).toNat) 3 [2, 0]
+    [3, 0xa, 0xb, 1, 0xc, 0xd, 2, 0xe, 0xf, 1, 0x1, 0x2, 0, 0x3, 0x4]).map (·.1) =
+    some [0, 0x3, 0x4, 1, 0xc, 0xd, 1, 0x1, 0x2, 2, 0xe, 0xf, 3, 0xa, 0xb] := by decide
+-- an element that is not completely inside the bytes given is a fault: element 1 of a 3-byte array of 2-byte elements,
+-- a swap with it, and a `memcpy` over the end
+example : elemAt 2 [3, 0, 2] 2 = none ∧ swapB 2 [3, 0, 2] 0 2 = none ∧ blit [3, 0, 2] 2 [7, 7] = none := by decide
+
+/-! ## Extension: bsearch / upper_bound / lower_bound on BYTES
+
+The same for bsearch.c: `left`, `right`, `mid` as byte offsets with the C
+expression `mid = left + ((right - left) / (size << 1) * size)`; every
+comparator argument must be `size` bytes completely inside the array. -/
+
+/-- bsearch on the bytes of an array laid out as ISO requires: no access
+outside `[base, base + nmemb*size)`, the returned pointer is `base + i*size` of
+an element comparing equal, NULL iff there is none — for every `size ≥ 1` -/
+theorem bsearch_bytes_iff {κ : Type} (size : Nat) (hs : 0 < size) (cmp : κ → List Byte → Int) (key : κ)
+    (a : List (List Byte)) (hu : Uniform size a) (hp : PartitionedBy cmp key a) :
+    ∃ r, bsearchB cmp key size a.flatten a.length = some r ∧
+      (∀ p, r = some p → ∃ i, ∃ h : i < a.length, p = i * size ∧ cmp key a[i] = 0) ∧
+      (r = none → ∀ i (h : i < a.length), cmp key a[i] ≠ 0) := by
+  obtain ⟨r, hr, h1, h2⟩ := bsearch_iff cmp key a hp
+  refine ⟨r.map (· * size), ?_, ?_, ?_⟩
+  · rw [bsearchB_refines cmp key hs a hu, hr]; rfl
+  · intro p hp'
+    cases r with
+    | none => cases hp'
+    | some i =>
+      simp only [Option.map_some, Option.some.injEq] at hp'
+      obtain ⟨hi, h0⟩ := h1 i rfl
+      exact ⟨i, hi, hp'.symm, h0⟩
+  · intro hn
+    cases r with
+    | none => exact h2 rfl
+    | some i => cases hn
+
+/-- upper_bound / lower_bound on bytes return `base + size * (first index …)` -/
+theorem bounds_bytes {κ : Type} (size : Nat) (hs : 0 < size) (cmp : κ → List Byte → Int) (key : κ)
+    (a : List (List Byte)) (hu : Uniform size a) (hp : PartitionedBy cmp key a) :
+    upperBoundB cmp key size a.flatten a.length = some (Spec.firstIdx (fun x => decide (cmp key x < 0)) a * size) ∧
+    lowerBoundB cmp key size a.flatten a.length = some (Spec.firstIdx (fun x => decide (cmp key x ≤ 0)) a * size) := by
+  obtain ⟨h1, h2⟩ := boundsB_refine cmp key hs a hu
+  rw [h1, h2, upper_bound_is_first_greater cmp key a hp, lower_bound_is_first_not_less cmp key a hp]
+  exact ⟨rfl, rfl⟩
+
+-- 3-byte elements ordered by their first byte, a 1-byte key: found at byte offset 6, bounds at 3 and 9
+example : bsearchB (fun (k : Nat) (e : List Byte) => (k : Int) - (e.headD 0).toNat) 3 3 [1, 9, 9, 3, 8, 8, 3, 7, 7, 5, 6, 6] 4 = some (some 6)
+    ∧ lowerBoundB (fun (k : Nat) (e : List Byte) => (k : Int) - (e.headD 0).toNat) 3 3 [1, 9, 9, 3, 8, 8, 3, 7, 7, 5, 6, 6] 4 = some 3
+    ∧ upperBoundB (fun (k : Nat) (e : List Byte) => (k : Int) - (e.headD 0).toNat) 3 3 [1, 9, 9, 3, 8, 8, 3, 7, 7, 5, 6, 6] 4 = some 9 := by decide
+
+/-! ## Extension: atol / atoi / atoll outside the representable range -/
+
+/-- atol is defined by the code exactly where ISO defines it: the decimal value
+when it is representable in `long`, and signed overflow (a fault of the model,
+undefined behaviour of the C code — UBSan aborts) for every other text.  ISO
+7.22.1.2 leaves that case undefined, so this is not a violation; callers that
+need clamping have `strtol` / `atoll` (`atoll_value`: defined for every text). -/
+theorem atol_defined_iff_representable (w : Nat) (hw : 0 < w) (t : List Byte) :
+    atol w (t ++ [0]) =
+      if -((2 : Int) ^ (w - 1)) ≤ Spec.decimalValue t ∧ Spec.decimalValue t ≤ (2 : Int) ^ (w - 1) - 1
+      then some (Spec.decimalValue t) else none := by
+  by_cases h : -((2 : Int) ^ (w - 1)) ≤ Spec.decimalValue t ∧ Spec.decimalValue t ≤ (2 : Int) ^ (w - 1) - 1
+  · rw [if_pos h]; exact atol_value w hw t h
+  · rw [if_neg h]; exact atol_overflow w hw t h
+
+/-- atoi = `(int) atol`: inside `long` but outside `int` the low `wi` bits of the
+value (implementation-defined conversion, what gcc and glibc's atoi do);
+outside `long` the fault of atol -/
+theorem atoi_truncates (wl wi : Nat) (hwl : 0 < wl) (t : List Byte) :
+    atoi wl wi (t ++ [0]) =
+      if -((2 : Int) ^ (wl - 1)) ≤ Spec.decimalValue t ∧ Spec.decimalValue t ≤ (2 : Int) ^ (wl - 1) - 1
+      then some (asSigned wi ((Spec.decimalValue t % 2 ^ wi).toNat)) else none := by
+  unfold atoi
+  rw [atol_defined_iff_representable wl hwl t]
+  split <;> rfl
+
+-- "128" as atol of an 8-bit long: overflow; "200" as atoi of a 16-bit long / 8-bit int: 200 - 256
+example : atol 8 ([0x31, 0x32, 0x38] ++ [0]) = none := by decide
+example : atoi 16 8 ([0x32, 0x30, 0x30] ++ [0]) = some (-56) := by decide
+example : atoll 8 ([0x31, 0x32, 0x38] ++ [0]) = some 127 ∧ atoll 8 ([0x20, 0x2d, 0x39, 0x39, 0x39] ++ [0]) = some (-128) := by decide
+
+/-! ## Extension: safety WITHOUT any hypothesis on the comparator or the array
+
+"never dereferences outside the array" does not depend on the array being laid
+out as ISO requires (that is the caller's obligation for the RESULT to mean
+something): for every comparator — inconsistent, constant, anything — and every
+array the three bisections terminate, read only indices `< nmemb` and return a
+pointer into `[base, base + nmemb*size]`. -/
+
+theorem bsearch_safe {κ α : Type} (cmp : κ → α → Int) (key : κ) (a : List α) :
+    ∃ r, bsearch cmp key a = some r ∧ ∀ i, r = some i → i < a.length :=
+  bsearch_safe' cmp key a
+
+theorem bounds_safe {κ α : Type} (cmp : κ → α → Int) (key : κ) (a : List α) :
+    (∃ r, upperBound cmp key a = some r ∧ r ≤ a.length) ∧ (∃ r, lowerBound cmp key a = some r ∧ r ≤ a.length) := by
+  constructor
+  · obtain ⟨x, hx, _, h2⟩ := bndLoop_safe (fun x => decide (cmp key x < 0)) a (a.length + 1) 0 a.length
+      (Nat.zero_le _) (Nat.le_refl _) (by omega)
+    exact ⟨x, hx, h2⟩
+  · obtain ⟨x, hx, _, h2⟩ := bndLoop_safe (fun x => decide (cmp key x ≤ 0)) a (a.length + 1) 0 a.length
+      (Nat.zero_le _) (Nat.le_refl _) (by omega)
+    exact ⟨x, hx, h2⟩
+
+/-- … and on bytes, for every element size ≥ 1: no `size`-byte comparator
+argument outside `[base, base + nmemb*size)`, the returned pointer is
+`base + i*size` with `i < nmemb` (bsearch) resp. `i ≤ nmemb` (bounds) -/
+theorem bisections_bytes_safe {κ : Type} (size : Nat) (hs : 0 < size) (cmp : κ → List Byte → Int) (key : κ)
+    (a : List (List Byte)) (hu : Uniform size a) :
+    (∃ r, bsearchB cmp key size a.flatten a.length = some r ∧ ∀ p, r = some p → ∃ i, i < a.length ∧ p = i * size) ∧
+    (∃ i, upperBoundB cmp key size a.flatten a.length = some (i * size) ∧ i ≤ a.length) ∧
+    (∃ i, lowerBoundB cmp key size a.flatten a.length = some (i * size) ∧ i ≤ a.length) := by
+  obtain ⟨r, hr, hin⟩ := bsearch_safe cmp key a
+  obtain ⟨⟨u, hu', hul⟩, ⟨l, hl', hll⟩⟩ := bounds_safe cmp key a
+  obtain ⟨b1, b2⟩ := boundsB_refine cmp key hs a hu
+  refine ⟨⟨r.map (· * size), ?_, ?_⟩, ⟨u, ?_, hul⟩, ⟨l, ?_, hll⟩⟩
+  · rw [bsearchB_refines cmp key hs a hu, hr]; rfl
+  · intro p hp
+    cases r with
+    | none => cases hp
+    | some i =>
+      simp only [Option.map_some, Option.some.injEq] at hp
+      exact ⟨i, hin i rfl, hp.symm⟩
+  · rw [b1, hu']; rfl
+  · rw [b2, hl']; rfl
+
+-- an unordered array and a nonsense comparator: still inside the array
+example : bsearch (fun (k : Int) (e : Int) => if e % 2 = 0 then -1 else k - e) 3 [5, 3, 8, 1, 3, 0, 9] = some (some 4) := by decide
+
+/-- `strto_accumulator_never_wraps` for EVERY step of EVERY run (not only the
+final state): after any digit string the loop state is flagged (`any = -1`) or
+`acc ≤ limit`, and whenever the cutoff/cutlim test admits the next digit `d`,
+`acc * base + d ≤ limit < 2^w`: the unsigned multiplication and addition of the
+code never wrap -/
+theorem strto_no_step_wraps (W b limit : Nat) (ovf : Option Nat) (hb : 0 < b) (hW : limit < W)
+    (ds : List Nat) (hds : ∀ d ∈ ds, d < b) (d : Nat) (hd : d < b) :
+    let st := ds.foldl (fun st (d : Nat) => stepU W b (limit / b) ((limit % b : Nat) : Int) ovf st (d : Int)) (0, 0)
+    st.2 = -1 ∨ (st.1 ≤ limit ∧
+      (¬ (st.1 > limit / b ∨ (st.1 = limit / b ∧ (d : Int) > ((limit % b : Nat) : Int))) → st.1 * b + d < W)) := by
+  intro st
+  rcases stepU_never_wraps W b limit ovf hb hW ds hds d hd st rfl with h | ⟨h1, h2⟩
+  · left; exact h
+  · right; exact ⟨h1, fun hno => by have := h2 hno; omega⟩
 
 end Igris.C11
